@@ -169,3 +169,28 @@ func (q *verifQueue) Done(rparam)                           {}
 func (q *verifQueue) ShutDown()                             {}
 func (q *verifQueue) ShutDownWithDrain()                    {}
 func (q *verifQueue) ShuttingDown() bool                    { return false }
+
+// VerifReconciler is the real IngressReconciler over the real watchers and a
+// Services instance, with a recording queue instead of the controller's one.
+type VerifReconciler struct {
+	*VerifWatchers
+	r *IngressReconciler
+}
+
+// VerifNewReconciler ...
+func VerifNewReconciler(ctx context.Context, cfg *config.Config, svc *services.Services) *VerifReconciler {
+	vw := VerifNewWatchers(ctx, cfg, svc.GetIsValidResource())
+	r := &IngressReconciler{
+		Config:   cfg,
+		Services: svc,
+		watchers: vw.w,
+	}
+	return &VerifReconciler{VerifWatchers: vw, r: r}
+}
+
+// Reconcile calls the real IngressReconciler.Reconcile and returns the requeue
+// delay it asks for (zero when none).
+func (v *VerifReconciler) Reconcile(fullsync bool) (time.Duration, error) {
+	res, err := v.r.Reconcile(context.Background(), rparam{fullsync: fullsync})
+	return res.RequeueAfter, err
+}
